@@ -12,6 +12,7 @@ let modes : (string * (string -> string)) list = [
   "ufstree", Mode_ufstree.check_line;
   "fidref", Mode_fidref.check_line;
   "bufref", Mode_bufref.check_line;
+  "clntref", Mode_clntref.check_line;
 ]
 
 let () =
